@@ -47,3 +47,25 @@ def find_entries(entries, form, pos, normalizer=True, lemmatize=None, all_forms=
             seen.add(e['id'])
             out.append(e)
     return out
+
+
+def find_synsets(entries, synset_pos, form, pos, normalizer=True, lemmatize=None, all_forms=True):
+    """synsets(form, pos): the part-of-speech filter applies to the synset; `synset_pos` maps a
+    (lexicon, synset id) pair to its part of speech.  Returns a set of (lexicon, synset id)."""
+    props = lemmatize(form, pos) if lemmatize else {}
+    if not props:
+        props = {pos: {form}}
+
+    def one_pass(transform):
+        res = []
+        for p, fs in props.items():
+            for e in match_entries(entries, [transform(f) for f in fs], None, normalizer, all_forms):
+                for s in e.get('senses', []):
+                    key = (e['_lex'], s['synset'])
+                    if not p or synset_pos.get(key) == p:
+                        res.append(key)
+        return res
+    res = one_pass(lambda f: f)
+    if not res and normalizer:
+        res = one_pass(norm)
+    return set(res)
